@@ -135,8 +135,10 @@ func runMemCase(c *vrun.Case, gp gridPoint, variant int) vrun.Result {
 	pipes := [2]*memPipe{ab, ba} // pipes[s] carries what side s sent
 	trs := [2]*tws.Transport{ta, tb}
 	var total obs
+	var undrainedTotal int64
 	for s := 0; s < 2; s++ {
-		frames, fbytes, nonBinary, _ := pipes[s].snapshot()
+		frames, fbytes, nonBinary, undrained := pipes[s].snapshot()
+		undrainedTotal += int64(undrained)
 		if nonBinary > 0 {
 			r := vrun.Violation("a message was sent with a WebSocket message type other than binary", prefix+":non-binary-message", map[string]any{"count": nonBinary})
 			r.Desc = desc
@@ -168,6 +170,7 @@ func runMemCase(c *vrun.Case, gp gridPoint, variant int) vrun.Result {
 	res.Desc = desc
 	total.into(&res)
 	res.Stat("max_merge_states", int64(total.maxStates))
+	res.Stat("messages_whose_reader_the_library_abandoned_before_EOF", undrainedTotal)
 	res.AddSet("grid_points", fmt.Sprintf("%s/l%d/w%d", gp.Mode, gp.Level, gp.WBits))
 	res.AddSet("effective_modes", eff)
 	res.AddSet("writers_per_side", fmt.Sprint(writers[0]), fmt.Sprint(writers[1]))
@@ -193,15 +196,43 @@ func exchangeFailures(ex *exchangeResult, prefix string, concurrent, realSocket 
 		st := ex.panics[0]
 		return mk(vrun.Violation("panic inside Transport.Read/Write", prefix+":panic:"+vrun.PanicSite(st)+cc, map[string]any{"panic": st[:min(len(st), 6000)], "case": desc}))
 	}
-	if err := ex.failErr; err != nil && ex.failKind != "panic" {
-		if realSocket && errIsEnvironmental(err) {
-			return mk(vrun.Inconcl(ex.failKind + " error of environmental kind: " + err.Error()))
+	var pick *failure
+	for i := range ex.fails {
+		f := &ex.fails[i]
+		if f.kind == "panic" {
+			continue
 		}
-		if ex.failKind == "write" {
-			return mk(vrun.Violation("Transport.Write failed on a healthy link", prefix+":write-error"+cc, map[string]any{"side": ex.failSide, "at": ex.failAt, "error": err.Error(), "case": desc}))
+		if pick == nil {
+			pick = f
+		}
+		if rootCauseOf(f.err) != "" {
+			pick = f
+			break
+		}
+	}
+	if pick != nil {
+		err := pick.err
+		var all []string
+		for _, f := range ex.fails {
+			all = append(all, fmt.Sprintf("%s side %d at %s: %v", f.kind, f.side, f.at, f.err))
+		}
+		if slug := rootCauseOf(err); slug != "" {
+			// one defect, one key: independent of mode and concurrency
+			tr := strings.SplitN(prefix, ":", 2)[0]
+			if slug == "previous-message-not-read-to-completion" {
+				tr = "websocket" // the transport does not drain the message reader; which backends mind is in the witness ("via")
+			}
+			return mk(vrun.Violation("peer Read failed on a healthy link: "+err.Error(), tr+":"+pick.kind+"-error:"+slug,
+				map[string]any{"side": pick.side, "at": pick.at, "error": err.Error(), "all_errors": all, "via": prefix, "case": desc}))
+		}
+		if realSocket && errIsEnvironmental(err) {
+			return mk(vrun.Inconcl(pick.kind + " error of environmental kind: " + err.Error()))
+		}
+		if pick.kind == "write" {
+			return mk(vrun.Violation("Transport.Write failed on a healthy link", prefix+":write-error"+cc, map[string]any{"side": pick.side, "at": pick.at, "error": err.Error(), "all_errors": all, "case": desc}))
 		}
 		return mk(vrun.Violation("peer Read failed although the link is healthy and every earlier message was written successfully", prefix+":read-error"+cc,
-			map[string]any{"side": ex.failSide, "at": ex.failAt, "error": err.Error(), "case": desc}))
+			map[string]any{"side": pick.side, "at": pick.at, "error": err.Error(), "all_errors": all, "case": desc}))
 	}
 	if ex.hung {
 		return mk(vrun.Inconcl("wall-clock watchdog fired during the exchange; dump head: " + ex.dump[:min(len(ex.dump), 1500)]))
